@@ -26,7 +26,13 @@ def run(tier):
     # every expression-valued slot with every expression of the pool (canonical parenthesisation is a normal form)
     from .. import docs as _docs, concretise
     sl = _docs.slots(ck=ck)
-    for e_i, ex in enumerate(concretise.EXPR_POOL):
+    # ... and expressions as a user writes them (not yet in the stored normal form): the builders must reach a fixed point
+    src_exprs = ['(([a] = 1 AND [b] = 2 OR [c] = 3) AND [d] = 4)', '([a] = 1 OR [b] = 2 AND [c] = 3)', '(NOT [a] = 1 AND [b] = 2)',
+                 '(("[name]" = "SALT AND PEPPER" OR [c] = 1) AND [d] = 2)', '(([a] = 1 OR [b] = 2 AND [c] = 3) OR [d] = 4)',
+                 '([a] + 1 * 2 > 3 AND ([b] - 1) / 2 < 4)', '(!([a] = 1) && [b] != 2 || [c] >= 3)', '((([a] = 1)))',
+                 '(length([n]) > 2 AND tostring([x],"%.1f") = "1.0")', '([a] IN "1,2,3" OR [b] ~ "^x")', '(-[a] + -2 < 0)',
+                 '(([a] = 1 AND ([b] = 2 OR ([c] = 3 AND [d] = 4))) OR NOT ([e] = 5))']
+    for e_i, ex in enumerate(list(concretise.EXPR_POOL) + src_exprs):
         conc = concretise.Concretiser(seed, exprs=[ex], avoid_quote="\"'")
         for h in sl:
             info = h[-1]["info"]
@@ -43,6 +49,8 @@ def run(tier):
         if is_corpus and optrun.has_quote_in_strings(d):
             continue
         use = cover if (quick or is_corpus) else sets[:: 6]
+        if tid.startswith("expr:"):
+            use = use[:6] if quick else use[:40]
         for oi, o in enumerate(use):
             kw = optrun.kwargs(o)
             itn = tracecheck.Interner()
@@ -53,7 +61,11 @@ def run(tier):
                 d1 = loads(t1)
                 t2 = impl.PrettyPrinter(**kw).pprint(copy.deepcopy(d1))
                 d2 = loads(t2)
-                t1b = impl.PrettyPrinter(**kw).pprint(copy.deepcopy(d))
+                # "the same dictionary and options always produce the same text": the very same object, dumped twice
+                # (separate_complex_types reorders its argument on the first call, which the second call then keeps)
+                same = copy.deepcopy(d)
+                impl.PrettyPrinter(**kw).pprint(same)
+                t1b = impl.PrettyPrinter(**kw).pprint(same)
                 rec.update(accepted=True, digest1=itn.s(optrun.digest(t1)), digest2=itn.s(optrun.digest(t2)),
                            digest_again=itn.s(optrun.digest(t1b)),
                            proj1=itn.value(project.project(d1)), proj2=itn.value(project.project(d2)))
